@@ -7,6 +7,7 @@ CONSTANTS
   ExpiryRecheck = FALSE
   EntryApi = TRUE
   FlushLock = TRUE
+  CollectOwn = TRUE
 SPECIFICATION Spec
 INVARIANT Linearizable
 PROPERTY Termination
